@@ -10,6 +10,10 @@
 //!           F <pipe>           buf = score(&pssm, &seq)
 //!           S <arm>            buf32 = ScoringMatrix::score(&seq)         (public API, forced arm; f32 only)
 //!           P <C> <pos>        ScoringMatrix::score_position(&seq, pos)   (f32 only)
+//!           M <M'> <M'*K entries>  from here on the calls use this other motif, on the SAME sequence objects and
+//!                              the SAME score buffers (the purpose of score_into: many motifs, one buffer);
+//!                              with G the sequences are configured again with `configure(&new pssm)`, with an
+//!                              explicit w they are left as they are (in contract while w >= M'-1); no answer
 //!         pipe: gen16 gen32 sse16 sse32 avx2 disp-generic disp-sse2 disp-avx2
 //! answer: per op, joined by " ; ": `panic` | <bits of one score> |
 //!         `<rows> <max_index> <hash cells> <len unstripe> <hash unstripe> <hash scores[i] | X> <offset(rows-1,C-1)>[ [cells]]`
@@ -20,7 +24,9 @@
 //! `0 + m[0][s[p]] + m[1][s[p+1]] + …` (f32, left to right; symbols past the end are the wildcard)
 //! for p = c*R + a + k — the same for every backend, arm and lane count; for p <= L-M it is -inf iff
 //! a term is, else within M*2^-24*sum|terms| of the f64 sum; a full scan unstripes to exactly
-//! L+1-M values, value i being the sum at position i; score_position agrees.
+//! L+1-M values, value i being the sum at position i; score_position agrees.  All of this holds
+//! whatever the buffer was used for before (another motif width, a sub-range): after a full scan
+//! `max_index()`, `iter().len()`, `unstripe().len()` are exactly L+1-M and `scores[i]` is the sum at i.
 use crate::out::*;
 use crate::rng::Rng;
 use crate::Cfg;
@@ -188,6 +194,13 @@ struct Obs {
     max_index: usize,
     cells: Vec<usize>,
     unstriped: Vec<usize>,
+    /// `iter().len()` (not part of the answer text: the model's `unstripe` IS `iter`)
+    iter_len: usize,
+    /// `scores[i]` for i in 0..min(max_index, rows*C), `None` when indexing panicked
+    indexed: Option<Vec<usize>>,
+    /// the other ways of reading the values out (`Vec::from(scores)`, `iter().rev()`, `iter().len()`
+    /// while iterating from both ends) against `unstripe()`; checked on a share of the observations
+    alt: Result<(), String>,
 }
 
 fn observe<T: Elem, C: StrictlyPositive + ArrayLength>(sc: &StripedScores<T, C>) -> Obs {
@@ -201,10 +214,27 @@ fn observe<T: Elem, C: StrictlyPositive + ArrayLength>(sc: &StripedScores<T, C>)
     let un: Vec<usize> = sc.unstripe().iter().map(|x| x.bits()).collect();
     let end = sc.max_index().min(m.rows() * C::USIZE);
     let idx = guarded(|| (0..end).map(|i| sc[i].bits()).collect::<Vec<usize>>());
-    let idxs = match idx {
-        Ok(v) => fnv_nats(v.into_iter()).to_string(),
-        Err(()) => "X".to_string(),
+    let indexed = idx.ok();
+    let idxs = match &indexed {
+        Some(v) => fnv_nats(v.iter().cloned()).to_string(),
+        None => "X".to_string(),
     };
+    let iter_len = sc.iter().len();
+    let mut alt = Ok(());
+    if un.len() <= 2048 || un.len() % 4 == 0 {
+        let v: Vec<usize> = Vec::<T>::from(sc.clone()).iter().map(|x| x.bits()).collect();
+        let mut rv: Vec<usize> = sc.iter().rev().map(|x| x.bits()).collect();
+        rv.reverse();
+        let mut it = sc.iter();
+        let (front, back) = (it.next().map(|x| x.bits()), it.next_back().map(|x| x.bits()));
+        if v != un {
+            alt = Err(format!("Vec::from(scores) has {} values, unstripe() {} (or they differ)", v.len(), un.len()));
+        } else if rv != un {
+            alt = Err("iter().rev() is not unstripe() backwards".to_string());
+        } else if un.len() >= 2 && (front != Some(un[0]) || back != Some(un[un.len() - 1]) || it.len() != un.len() - 2) {
+            alt = Err("iter(): next() / next_back() / len() disagree with unstripe()".to_string());
+        }
+    }
     let off = if m.rows() == 0 { 0 } else { sc.offset(MatrixCoordinates::new(m.rows() - 1, C::USIZE - 1)) };
     let dump = if cells.len() <= 64 { format!(" [{}]", join(cells.iter())) } else { String::new() };
     Obs {
@@ -213,6 +243,9 @@ fn observe<T: Elem, C: StrictlyPositive + ArrayLength>(sc: &StripedScores<T, C>)
         max_index: sc.max_index(),
         cells,
         unstriped: un,
+        iter_len,
+        indexed,
+        alt,
     }
 }
 
@@ -222,11 +255,12 @@ fn terms<T: Elem>(mat: &[Vec<T>], syms: &[usize], n: usize, p: usize) -> Vec<T> 
 }
 
 fn oracle_scan<T: Elem>(mat: &[Vec<T>], syms: &[usize], n: usize, c: usize, a: usize, b: usize, full: bool, o: &Obs) -> Result<(), String> {
+    o.alt.clone()?;
     let (l, m) = (syms.len(), mat.len());
     let r = (l + c - 1) / c;
     if l < m || a >= b {
-        if o.rows != 0 || o.max_index != 0 || !o.unstriped.is_empty() {
-            return Err(format!("L={} M={} rows {}..{}: expected no values, got {} rows, max_index {}, {} values", l, m, a, b, o.rows, o.max_index, o.unstriped.len()));
+        if o.rows != 0 || o.max_index != 0 || !o.unstriped.is_empty() || o.iter_len != 0 {
+            return Err(format!("L={} M={} rows {}..{}: expected no values, got {} rows, max_index {}, {} values, iter().len() {}", l, m, a, b, o.rows, o.max_index, o.unstriped.len(), o.iter_len));
         }
         return Ok(());
     }
@@ -255,6 +289,14 @@ fn oracle_scan<T: Elem>(mat: &[Vec<T>], syms: &[usize], n: usize, c: usize, a: u
         if o.unstriped.len() != l + 1 - m {
             return Err(format!("unstripe gives {} values, L-M+1 = {}", o.unstriped.len(), l + 1 - m));
         }
+        if o.iter_len != l + 1 - m {
+            return Err(format!("iter().len() = {}, L-M+1 = {}", o.iter_len, l + 1 - m));
+        }
+        match &o.indexed {
+            None => return Err("scores[i] panics for some i < max_index".into()),
+            Some(v) if v != &o.unstriped => return Err("scores[i] for i < max_index differ from unstripe()".into()),
+            _ => {}
+        }
         for i in 0..l + 1 - m {
             if let Some(w) = T::window(&terms(mat, syms, n, i)) {
                 if w.bits() != o.unstriped[i] {
@@ -276,9 +318,9 @@ struct Outcome {
 fn run_case<A: Alphabet, T: Elem, P: Pipes<A, T>>(t: &[&str]) -> Outcome {
     let k = A::K::USIZE;
     let n = A::default_symbol().as_index();
-    let m: usize = t[0].parse().unwrap();
+    let mut m: usize = t[0].parse().unwrap();
     let mut i = 1;
-    let mat: Vec<Vec<T>> = (0..m).map(|r| (0..k).map(|c| T::parse(t[i + r * k + c])).collect()).collect();
+    let mut mat: Vec<Vec<T>> = (0..m).map(|r| (0..k).map(|c| T::parse(t[i + r * k + c])).collect()).collect();
     i += m * k;
     let cfg = t[i];
     let l: usize = t[i + 1].parse().unwrap();
@@ -287,15 +329,19 @@ fn run_case<A: Alphabet, T: Elem, P: Pipes<A, T>>(t: &[&str]) -> Outcome {
     i += l;
     let ops = &t[i..];
 
-    let dm = DenseMatrix::<T, A::K>::from_rows(mat.iter());
+    let dense = |mat: &Vec<Vec<T>>| DenseMatrix::<T, A::K>::from_rows(mat.iter());
     // a scoring matrix of the same shape: `configure(&pssm)`, and the public f32 entry points
-    let fm = DenseMatrix::<f32, A::K>::from_rows(mat.iter().map(|row| row.iter().map(|x| f32::from_bits(x.bits() as u32)).collect::<Vec<f32>>()).collect::<Vec<_>>().iter());
-    let spssm = ScoringMatrix::<A>::new(Background::uniform(), fm);
+    let scoring = |mat: &Vec<Vec<T>>| {
+        let fm = DenseMatrix::<f32, A::K>::from_rows(mat.iter().map(|row| row.iter().map(|x| f32::from_bits(x.bits() as u32)).collect::<Vec<f32>>()).collect::<Vec<_>>().iter());
+        ScoringMatrix::<A>::new(Background::uniform(), fm)
+    };
+    let mut dm = dense(&mat);
+    let mut spssm = scoring(&mat);
     let is_f32 = std::any::TypeId::of::<T>() == std::any::TypeId::of::<f32>();
     let symv: Vec<A::Symbol> = syms.iter().map(|&x| A::symbols()[x]).collect();
     let mut s16: StripedSequence<A, U16> = Pipeline::<A, _>::generic().stripe(&symv);
     let mut s32: StripedSequence<A, U32> = Pipeline::<A, _>::generic().stripe(&symv);
-    let wrap = if cfg == "G" {
+    let mut wrap = if cfg == "G" {
         s16.configure(&spssm);
         s32.configure(&spssm);
         m.saturating_sub(1)
@@ -305,9 +351,10 @@ fn run_case<A: Alphabet, T: Elem, P: Pipes<A, T>>(t: &[&str]) -> Outcome {
         s32.configure_wrap(w);
         w
     };
-    let in_contract = m >= 1 && wrap >= m - 1;
+    let mut in_contract = m >= 1 && wrap >= m - 1;
+    // the buffer of a first scoring: `empty()` and `default()`
     let mut b16 = StripedScores::<T, U16>::empty();
-    let mut b32 = StripedScores::<T, U32>::empty();
+    let mut b32 = StripedScores::<T, U32>::default();
     let mut out = Vec::new();
     let mut verdict: Result<(), String> = Ok(());
     let mut nontrivial = false;
@@ -417,6 +464,20 @@ fn run_case<A: Alphabet, T: Elem, P: Pipes<A, T>>(t: &[&str]) -> Outcome {
                         out.push("panic".to_string());
                     }
                 }
+            }
+            "M" => {
+                // another motif from here on: same sequence objects, same score buffers
+                m = ops[j + 1].parse().unwrap();
+                mat = (0..m).map(|r| (0..k).map(|c| T::parse(ops[j + 2 + r * k + c])).collect()).collect();
+                j += 2 + m * k;
+                dm = dense(&mat);
+                spssm = scoring(&mat);
+                if cfg == "G" {
+                    s16.configure(&spssm);
+                    s32.configure(&spssm);
+                    wrap = wrap.max(m.saturating_sub(1));
+                }
+                in_contract = m >= 1 && wrap >= m - 1;
             }
             _ => panic!("bad op {}", op),
         }
@@ -850,6 +911,72 @@ fn case_line(rng: &mut Rng, alpha: &str, k: usize, ty: &str, m: usize, l: usize,
     line
 }
 
+/// reuse histories: one sequence, two or three motifs of different widths scored one after the other
+/// into the SAME buffer by the same pipeline (same number of score rows, different L-M+1), a
+/// sub-range after a full scan, equal-sized sub-ranges under two motifs, and a full scan again
+fn reuse_line(rng: &mut Rng, alpha: &str, k: usize, ty: &str, l: usize, all_pipes: bool) -> String {
+    let matrix = |rng: &mut Rng, m: usize| if ty == "f32" { matrix_f32(rng, k, m) } else { matrix_u8(rng, k, m) };
+    let cap = if l > 4000 { if k > 8 { 3 } else { 6 } } else { 24 };
+    let nm = rng.range(2, 3);
+    let mut ms: Vec<usize> = Vec::new();
+    while ms.len() < nm {
+        // mostly L >= M (same row count, different max_index); now and then L < M in the middle
+        let hi = if rng.chance(1, 8) { cap } else { cap.min(l.max(1)) };
+        let m = rng.range(1, hi);
+        if !ms.contains(&m) || hi < 3 {
+            ms.push(m);
+        }
+    }
+    let wmax = ms.iter().max().unwrap() - 1;
+    let cfg = if rng.chance(1, 3) { (wmax + rng.range(0, 3)).to_string() } else { "G".to_string() };
+    let mut line = format!("c01 {} {} {} {} {} {}", alpha, ty, ms[0], matrix(rng, ms[0]), cfg, seq(rng, k, l));
+    let pipes: &[&str] = if ty == "f32" { &PIPES_F32 } else { &PIPES_U8 };
+    let chosen: Vec<&str> = if all_pipes { pipes.to_vec() } else { (0..3).map(|_| *rng.pick(pipes)).collect() };
+    let full = |rng: &mut Rng, line: &mut String| {
+        for p in &chosen {
+            // score_into mostly (F replaces the buffer by a fresh one)
+            line.push_str(&format!(" {} {}", if rng.chance(1, 6) { "F" } else { "I" }, p));
+        }
+    };
+    full(rng, &mut line);
+    for (n, &m) in ms.iter().enumerate().skip(1) {
+        // a sub-range after the full scan, then the same number of rows under the next motif
+        let sub: Vec<(&str, usize, usize)> = chosen
+            .iter()
+            .map(|p| {
+                let c = if p.ends_with("16") { 16 } else { 32 };
+                let (a, b) = sub_range(rng, (l + c - 1) / c);
+                (*p, a, b)
+            })
+            .collect();
+        let with_sub = rng.chance(1, 2);
+        if with_sub {
+            for (p, a, b) in &sub {
+                line.push_str(&format!(" R {} {} {}", p, a, b));
+            }
+            if rng.chance(1, 2) {
+                full(rng, &mut line);
+            }
+        }
+        line.push_str(&format!(" M {} {}", m, matrix(rng, m)));
+        if with_sub && rng.chance(1, 2) {
+            for (p, a, b) in &sub {
+                let c = if p.ends_with("16") { 16 } else { 32 };
+                let r = (l + c - 1) / c;
+                // same number of rows, elsewhere
+                let n = b.saturating_sub(*a);
+                let a2 = rng.range(0, r - n.min(r));
+                line.push_str(&format!(" R {} {} {}", p, a2, a2 + n));
+            }
+        }
+        full(rng, &mut line);
+        if ty == "f32" && n + 1 == ms.len() && l >= m {
+            line.push_str(&format!(" S {} P 16 {} P 32 {}", *rng.pick(&["generic", "sse2", "avx2"]), rng.range(0, l - m), l - m));
+        }
+    }
+    line
+}
+
 /// calls outside the contract, where panic / no panic is what is compared: too few wrap rows, empty
 /// motif, ranges past the sequence rows
 fn edge_line(rng: &mut Rng, alpha: &str, k: usize, ty: &str) -> String {
@@ -925,6 +1052,20 @@ pub fn generate(cfg: &Cfg) -> Vec<String> {
             let m = if l > 4000 { rng.range(1, if k > 8 { 3 } else { 6 }) } else if rng.chance(1, 4) { rng.range(1, 40) } else { rng.range(1, 16) };
             cases.push(case_line(&mut rng, alpha, k, ty, m, l, false));
         }
+        // reuse stream: several motifs, one buffer (its own random state: the other streams are
+        // what they were before this one existed)
+        let mut rrng = Rng::new(cfg.seed ^ (0xC01_0100 + ki as u64));
+        for (li, &l) in lengths(cfg.thorough).iter().enumerate() {
+            if l == 0 || (!cfg.thorough && l > 80 && (li + ki) % 5 != 0) {
+                continue;
+            }
+            cases.push(reuse_line(&mut rrng, alpha, k, ty, l, l <= 80 && li % 2 == 0));
+        }
+        let count = (if cfg.thorough { 300 } else { 40 }) * cfg.boost;
+        for n in 0..count {
+            let l = if n % 40 == 39 { rrng.range(2000, if cfg.thorough { 70_000 } else { 9_000 }) } else { rrng.range(1, 400) };
+            cases.push(reuse_line(&mut rrng, alpha, k, ty, l, false));
+        }
         // out-of-contract stream
         let count = (if cfg.thorough { 400 } else { 60 }) * cfg.boost;
         for _ in 0..count {
@@ -971,6 +1112,11 @@ pub fn run(cfg: &Cfg) {
             if n > 0 {
                 *out.stats.entry(name.to_string()).or_insert(0) += n as u64;
             }
+        }
+        let nsw = c.matches(" M ").count();
+        if nsw > 0 {
+            out.stat("reuse/motif-switch cases");
+            *out.stats.entry("op/motif-switch".to_string()).or_insert(0) += nsw as u64;
         }
         out.panics += panics;
         out.case(c, &ans, o, nt);
